@@ -77,6 +77,47 @@ impl SysCase {
     }
 }
 
+struct SharedRec(std::rc::Rc<std::cell::RefCell<Vec<u8>>>);
+impl rustzx_core::host::DataRecorder for SharedRec {
+    fn write(&mut self, buf: &[u8]) -> Result<usize, rustzx_core::error::IoError> {
+        self.0.borrow_mut().extend_from_slice(buf);
+        Ok(buf.len())
+    }
+}
+
+/// the whole RAM of the real machine as pages (48K: 3 pages through peek; 128K: all 8 banks through
+/// an SNA save into memory: header 27, banks 5, 2, n, 4 bytes, then 0,1,3,4,6,7 without n)
+fn dump_ram(e: &mut Emu, m128: bool) -> Vec<Vec<u8>> {
+    if !m128 {
+        return (0..3usize)
+            .map(|p| (0..16384usize).map(|o| e.peek((0x4000 + p * 16384 + o) as u16)).collect())
+            .collect();
+    }
+    let shared = std::rc::Rc::new(std::cell::RefCell::new(Vec::<u8>::new()));
+    let r = e.save_snapshot(rustzx_core::host::SnapshotRecorder::Sna(SharedRec(shared.clone())));
+    let mut pages = vec![vec![0u8; 16384]; 8];
+    let data = shared.borrow();
+    if r.is_err() || data.len() < 27 + 3 * 16384 + 4 {
+        return pages;
+    }
+    let d = &data[..];
+    let n = (d[27 + 3 * 16384 + 2] & 7) as usize;
+    pages[5].copy_from_slice(&d[27..27 + 16384]);
+    pages[2].copy_from_slice(&d[27 + 16384..27 + 2 * 16384]);
+    pages[n].copy_from_slice(&d[27 + 2 * 16384..27 + 3 * 16384]);
+    let mut pos = 27 + 3 * 16384 + 4;
+    for b in [0usize, 1, 3, 4, 6, 7] {
+        if b == n {
+            continue;
+        }
+        if pos + 16384 <= d.len() {
+            pages[b].copy_from_slice(&d[pos..pos + 16384]);
+        }
+        pos += 16384;
+    }
+    pages
+}
+
 struct Obs {
     st: St,
     clocks: usize,
@@ -86,7 +127,7 @@ struct Obs {
     pc_before: u16,
 }
 
-fn run_real(c: &SysCase) -> Result<Vec<Obs>, String> {
+fn run_real(c: &SysCase) -> Result<(Vec<Obs>, Vec<Vec<u8>>), String> {
     catch(|| {
         let mut cfg = Cfg::new(c.m128);
         cfg.kempston = c.kempston;
@@ -123,7 +164,8 @@ fn run_real(c: &SysCase) -> Result<Vec<Obs>, String> {
                 pc_before,
             });
         }
-        out
+        let ram = dump_ram(&mut e, c.m128);
+        (out, ram)
     })
 }
 
@@ -140,6 +182,7 @@ fn model_lines(c: &SysCase) -> Vec<String> {
     for _ in 0..c.steps {
         lines.push("step".into());
     }
+    lines.push("ram".into());
     lines
 }
 
@@ -153,7 +196,7 @@ pub struct SysFail {
 }
 
 pub fn check(model: &mut Model, c: &SysCase, mut rep: Option<&mut Report>) -> Option<SysFail> {
-    let real = match run_real(c) {
+    let (real, ram) = match run_real(c) {
         Ok(r) => r,
         Err(msg) => {
             return Some(SysFail { step: 0, field: "panic".into(), got: msg, want: "no panic".into(), op: String::new(), panic: true });
@@ -161,7 +204,7 @@ pub fn check(model: &mut Model, c: &SysCase, mut rep: Option<&mut Report>) -> Op
     };
     let lines = model_lines(c);
     let answers = model.ask_many(&lines);
-    let first = lines.len() - c.steps;
+    let first = lines.len() - c.steps - 1;
     let mem_at = |a: u16| -> u8 {
         // best effort label: byte from the pokes
         for (pa, b) in c.pokes.iter().rev() {
@@ -198,6 +241,32 @@ pub fn check(model: &mut Model, c: &SysCase, mut rep: Option<&mut Report>) -> Op
         for (name, got, want) in extras {
             if got != want {
                 return Some(SysFail { step: i, field: name.to_string(), got: format!("{}", got), want: format!("{}", want), op, panic: false });
+            }
+        }
+    }
+    // whole RAM: every location the model stored to has the model's final value in the real machine, and
+    // the real machine has no non-zero byte anywhere else (a store into a page no window maps is seen too)
+    let mut expected: std::collections::HashMap<(usize, usize), u8> = std::collections::HashMap::new();
+    for tok in answers[lines.len() - 1].split_whitespace() {
+        let mut it = tok.split(':');
+        let p = usize::from_str_radix(it.next().unwrap_or("0"), 16).unwrap_or(0);
+        let o = usize::from_str_radix(it.next().unwrap_or("0"), 16).unwrap_or(0);
+        let v = u8::from_str_radix(it.next().unwrap_or("0"), 16).unwrap_or(0);
+        expected.insert((p, o), v);
+    }
+    let last = real.len().saturating_sub(1);
+    for (p, page) in ram.iter().enumerate() {
+        for (o, b) in page.iter().enumerate() {
+            let want = expected.get(&(p, o)).copied().unwrap_or(0);
+            if *b != want {
+                return Some(SysFail {
+                    step: last,
+                    field: format!("ram[page {} offset {:04x}]", p, o),
+                    got: format!("{:02x}", b),
+                    want: format!("{:02x}", want),
+                    op: String::new(),
+                    panic: false,
+                });
             }
         }
     }
@@ -289,7 +358,7 @@ pub fn record(model: &mut Model, rep: &mut Report, prop: &str, c: &SysCase, f: S
         let mut cand = small.clone();
         cand.pokes.remove(i);
         match check(model, &cand, None) {
-            Some(f2) if f2.field == cur_f.field => {
+            Some(f2) if f2.field.split('[').next() == cur_f.field.split('[').next() => {
                 small = cand;
                 cur_f = f2;
             }
@@ -299,7 +368,7 @@ pub fn record(model: &mut Model, rep: &mut Report, prop: &str, c: &SysCase, f: S
     let timing = cur_f.field == "clock" || cur_f.field == "frames";
     rep.violation(Violation {
         kind: Kind::SpecViolated,
-        key: format!("{}/sys/{}/{}/op={}", prop, if small.m128 { "128k" } else { "48k" }, cur_f.field, cur_f.op),
+        key: format!("{}/sys/{}/{}/op={}", prop, if small.m128 { "128k" } else { "48k" }, cur_f.field.split('[').next().unwrap_or(""), cur_f.op),
         what: format!(
             "whole-machine lock-step, step {} (instruction bytes {} at its PC): {} is {} in the real Emulator, {} in the Lean machine (Z80 reference on the Spectrum bus){}",
             cur_f.step, cur_f.op, cur_f.field, cur_f.got, cur_f.want,
